@@ -392,6 +392,49 @@ pub fn build_client(prefix: &str, dtags: &str, dcid: &str, script: &str) -> Buil
     }
 }
 
+/// like build_client, but the error handler itself makes a failing quiet send on the same client (a timer value that
+/// does not fit u64) - once per outer invocation, not from the nested one.  The client lives in an Arc the handler
+/// can reach (the cycle is leaked: one per case).
+pub fn build_client_nested(prefix: &str, dtags: &str, dcid: &str, script: &str) -> (Arc<StatsdClient>, Arc<Mutex<Vec<String>>>, Arc<Mutex<Vec<String>>>) {
+    use std::sync::atomic::{AtomicUsize, Ordering};
+    let log = Arc::new(Mutex::new(vec![]));
+    let handled = Arc::new(Mutex::new(vec![]));
+    let sink = RecSink {
+        log: log.clone(),
+        script: Arc::new(Mutex::new(parse_script(script))),
+    };
+    let slot: Arc<Mutex<Option<Arc<StatsdClient>>>> = Arc::new(Mutex::new(None));
+    let depth = Arc::new(AtomicUsize::new(0));
+    let (h2, slot2, depth2) = (handled.clone(), slot.clone(), depth.clone());
+    let mut b = StatsdClient::builder(&unhex0(prefix), sink).with_error_handler(move |e| {
+        h2.lock().unwrap().push(canon_err(&e));
+        if depth2.fetch_add(1, Ordering::SeqCst) == 0 {
+            let c = { slot2.lock().unwrap().clone() };
+            if let Some(c) = c {
+                c.time_with_tags("nested", std::time::Duration::MAX).send();
+            }
+        }
+        depth2.fetch_sub(1, Ordering::SeqCst);
+    });
+    if dtags != "-" {
+        for t in dtags.split(',') {
+            let (h, r) = t.split_at(1);
+            if h == "k" {
+                let (k, v) = r.split_once(':').expect("dtag");
+                b = b.with_tag(unhex0(k), unhex0(v));
+            } else {
+                b = b.with_tag_value(unhex0(r));
+            }
+        }
+    }
+    if dcid != "~" {
+        b = b.with_container_id(unhex0(dcid));
+    }
+    let client = Arc::new(b.build());
+    *slot.lock().unwrap() = Some(client.clone());
+    (client, log, handled)
+}
+
 pub fn parse_form(s: &str) -> Form {
     match s {
         "T" => Form::TrySend,
@@ -402,11 +445,22 @@ pub fn parse_form(s: &str) -> Form {
 }
 
 fn run_x(t: &[&str]) -> String {
-    let built = if t[0] == "Y" {
-        assert!(t[2] == "-" && t[3] == "~", "Y cases have no defaults");
-        build_client_from_sink(t[1], t[4])
+    struct B {
+        client: Arc<StatsdClient>,
+        log: Arc<Mutex<Vec<String>>>,
+        handled: Arc<Mutex<Vec<String>>>,
+    }
+    let built = if t[0] == "XN" {
+        let (client, log, handled) = build_client_nested(t[1], t[2], t[3], t[4]);
+        B { client, log, handled }
     } else {
-        build_client(t[1], t[2], t[3], t[4])
+        let b = if t[0] == "Y" {
+            assert!(t[2] == "-" && t[3] == "~", "Y cases have no defaults");
+            build_client_from_sink(t[1], t[4])
+        } else {
+            build_client(t[1], t[2], t[3], t[4])
+        };
+        B { client: Arc::new(b.client), log: b.log, handled: b.handled }
     };
     let n: usize = t[5].parse().unwrap();
     let mut out = vec![];
@@ -483,7 +537,7 @@ fn run_f(t: &[&str]) -> String {
 pub fn run_case(line: &str) -> String {
     let t: Vec<&str> = line.split_whitespace().collect();
     match t[0] {
-        "X" | "Y" => run_x(&t),
+        "X" | "Y" | "XN" => run_x(&t),
         "K" => run_k(&t),
         "F" => run_f(&t),
         _ => panic!("bad wire case"),
